@@ -384,6 +384,9 @@ class Timeseries:
 
         self.__binary = binary
 
+        self.__forecast_datetime = None
+        self.__forecast_index = None
+
         if not self.make_new_file:
             f = None
             if self.__binary:
@@ -1169,7 +1172,27 @@ class Timeseries:
                     self.__values[ensemble_member][key] = self.__values[ensemble_member][key][
                         :n_delta_e
                     ]
+
+        # Keep the time stamps (and the forecast index) in line with the new range
+        if self.__dt:
+            n_times = (
+                int(round((end_datetime - start_datetime).total_seconds() / self.__dt.total_seconds()))
+                + 1
+            )
+            self.__times = [start_datetime + i * self.__dt for i in range(n_times)]
+        else:
+            self.__times = self.__times[
+                bisect.bisect_left(self.__times, start_datetime) : bisect.bisect_left(
+                    self.__times, end_datetime
+                )
+                + 1
+            ]
         self.__end_datetime = end_datetime
+        if self.__forecast_datetime is not None:
+            try:
+                self.__forecast_index = self.__times.index(self.__forecast_datetime)
+            except ValueError:
+                self.__forecast_index = -1
 
     @property
     def path(self) -> str:
